@@ -206,6 +206,7 @@ class Outcome:
     node: Optional[ast.AST] = None
     exc: str = ""
     ren: Dict[str, str] = field(default_factory=dict)   # atom identifications the path implies
+    trivial: List[Tuple[str, Mono]] = field(default_factory=list)  # group elements the path states to be trivial
 
 
 @dataclass
@@ -215,13 +216,14 @@ class Event:
     data: Dict[str, Any]
     path: List[Tuple[str, bool]] = field(default_factory=list)
     ren: Dict[str, str] = field(default_factory=dict)
+    trivial: List[Any] = field(default_factory=list)
 
 
 class Env(dict):
     def fork(self) -> "Env":
         e = Env()
         for k, v in self.items():
-            e[k] = copy.deepcopy(v) if isinstance(v, (DictV,)) else (dict(v) if k == "__ren__" else v)
+            e[k] = copy.deepcopy(v) if isinstance(v, (DictV,)) else (dict(v) if k == "__ren__" else (list(v) if k == "__trivial__" else v))
         return e
 
 
@@ -319,6 +321,7 @@ class _EventList(list):
     def append(self, ev: Any) -> None:
         ev.path = list(getattr(self.owner, "cur_path", []))
         ev.ren = dict(getattr(self.owner, "cur_ren", {}))
+        ev.trivial = list(getattr(self.owner, "cur_trivial", [])) + list(getattr(self.owner, "active_trivial", []))
         super().append(ev)
 
 
@@ -343,6 +346,7 @@ class Interp:
         self.choice_log: List[int] = []
         self.choice_notes: List[Tuple[str, List[Tuple[str, bool]]]] = []
         self.active_ren: Dict[str, str] = {}
+        self.active_trivial: List[Tuple[str, Mono]] = []
 
     # ------------------------------------------------------------ functions
     def run(self, qual: str, args: Dict[str, AV]) -> List[Outcome]:
@@ -370,6 +374,7 @@ class Interp:
             i += 1
             self.cur_path = list(path)
             self.cur_ren = dict(env.get("__ren__", {}))
+            self.cur_trivial = list(env.get("__trivial__", []))
             if isinstance(st, ast.Expr):
                 if isinstance(st.value, ast.Constant):
                     continue
@@ -392,7 +397,7 @@ class Interp:
                 continue
             if isinstance(st, ast.Return):
                 v = self.eval(fi, st.value, env) if st.value is not None else NoneV()
-                return [Outcome("return", v, list(path), st, ren=dict(env.get("__ren__", {})))]
+                return [Outcome("return", v, list(path), st, ren=dict(env.get("__ren__", {})), trivial=list(env.get("__trivial__", [])))]
             if isinstance(st, ast.Raise):
                 exc = ast.unparse(st.exc.func) if isinstance(st.exc, ast.Call) else (ast.unparse(st.exc) if st.exc else "")
                 return [Outcome("raise", None, list(path), st, exc, ren=dict(env.get("__ren__", {})))]
@@ -452,9 +457,52 @@ class Interp:
         return [Outcome("fall", env, list(path))]  # type: ignore[arg-type]
 
     # -------------------------------------------------------------- idioms
+    @staticmethod
+    def _guard_only(stmts: List[ast.stmt]) -> bool:
+        """A block that can only raise (or do nothing): `if <test>: raise ...`, nested."""
+        for s_ in stmts:
+            if isinstance(s_, (ast.Raise, ast.Pass)):
+                continue
+            if isinstance(s_, ast.Expr) and isinstance(s_.value, ast.Constant):
+                continue
+            if isinstance(s_, ast.If) and Interp._guard_only(s_.body) and Interp._guard_only(s_.orelse):
+                continue
+            return False
+        return True
+
     def exec_for(self, fi: FuncInfo, st: ast.For, env: Env) -> None:
         """for k, e in X.items(): m[k] += e   (merge)   /  -= e"""
         it = st.iter
+        if self._guard_only(st.body) and not st.orelse:
+            # an exactness / validation loop: it can raise but computes nothing
+            self.events.append(Event("guard-loop", st, {"func": fi.qual}))
+            return
+        # filter-copy loop:  for k, e in X.items(): [if <filters>:] D[k] = f(e)
+        if (isinstance(it, ast.Call) and isinstance(it.func, ast.Attribute) and it.func.attr == "items"
+                and isinstance(st.target, ast.Tuple) and len(st.target.elts) == 2
+                and all(isinstance(x, ast.Name) for x in st.target.elts) and len(st.body) == 1 and not st.orelse):
+            inner = st.body[0]
+            conds: List[ast.AST] = []
+            while isinstance(inner, ast.If) and not inner.orelse and len(inner.body) == 1:
+                conds.append(inner.test)
+                inner = inner.body[0]
+            if (isinstance(inner, ast.Assign) and len(inner.targets) == 1 and isinstance(inner.targets[0], ast.Subscript)
+                    and isinstance(inner.targets[0].value, ast.Name) and isinstance(inner.targets[0].slice, ast.Name)):
+                dname = inner.targets[0].value.id
+                cur = env.get(dname)
+                fresh = (isinstance(cur, GroupV) and cur.vec and not cur.mono and "empty" in cur.flags) or \
+                        (isinstance(cur, DictV) and not cur.g.mono)
+                if fresh:
+                    comp = ast.DictComp(
+                        key=inner.targets[0].slice, value=inner.value,
+                        generators=[ast.comprehension(target=st.target, iter=it, ifs=conds, is_async=0)])
+                    ast.copy_location(comp, st)
+                    ast.fix_missing_locations(comp)
+                    res = self.dictcomp(fi, comp, env)
+                    if isinstance(res, GroupV):
+                        res.flags.discard("empty")
+                        env[dname] = res
+                        return
         if (isinstance(it, ast.Call) and isinstance(it.func, ast.Attribute) and it.func.attr == "items"
                 and isinstance(st.target, ast.Tuple) and len(st.target.elts) == 2
                 and all(isinstance(x, ast.Name) for x in st.target.elts) and len(st.body) == 1):
@@ -634,6 +682,20 @@ class Interp:
             neg = not neg
             test = test.operand
         t = truth != neg
+        if isinstance(test, ast.Name) and t:
+            v = env.get(test.id)
+            g = v.g if isinstance(v, DictV) else v
+            if isinstance(g, GroupV) and g.vec:
+                g2 = GroupV(g.kind, g.mono, set(g.flags) | {"nonempty"}, True)
+                env[test.id] = DictV(g2) if isinstance(v, DictV) else g2
+        if isinstance(test, ast.Name) and not t:
+            # `if not factors:` taken: the mapping is empty, i.e. its group element is trivial
+            v = env.get(test.id)
+            g = v.g if isinstance(v, DictV) else v
+            if isinstance(g, GroupV) and g.vec and g.mono:
+                tl = list(env.get("__trivial__", []))
+                tl.append((g.kind, g.mono))
+                env["__trivial__"] = tl
         if isinstance(test, ast.Compare) and len(test.ops) == 1:
             op = test.ops[0]
             l, r = test.left, test.comparators[0]
@@ -938,6 +1000,13 @@ class Interp:
         if len(e.ops) == 1:
             op = e.ops[0]
             a, b = vals
+            if isinstance(op, (ast.Is, ast.IsNot)) and (isinstance(a, NoneV) or isinstance(b, NoneV)):
+                x = b if isinstance(a, NoneV) else a
+                if isinstance(x, NoneV):
+                    return BoolV(isinstance(op, ast.Is))
+                if not isinstance(x, OpaqueV):
+                    return BoolV(isinstance(op, ast.IsNot))
+                return BoolV(None)
             if isinstance(op, (ast.Is, ast.IsNot, ast.Eq, ast.NotEq)):
                 same: Optional[bool] = None
                 if isinstance(a, UnitV) and isinstance(b, UnitV):
@@ -1246,6 +1315,7 @@ class Interp:
         rets = [o for o in outs if o.kind == "return"]
         if len(rets) == 1:
             self.active_ren.update(rets[0].ren)
+            self.active_trivial += rets[0].trivial
             return rets[0].value
         if not rets:
             return OpaqueV(f"{target} never returns on this path")
@@ -1265,6 +1335,7 @@ class Interp:
             k = 0
         self.choice_notes.append((target, distinct[k].path))
         self.active_ren.update(distinct[k].ren)
+        self.active_trivial += distinct[k].trivial
         return distinct[k].value
 
     # ---------------------------------------------------------- constructors
